@@ -65,6 +65,8 @@ pub assume_specification [<Quantifier as Clone>::clone] (e: &Quantifier) -> (r: 
 #[verifier::external_body] pub fn vx_join_shown(gs: &Vec<Grapheme>) -> (r: String) ensures r@ == joined_shown(gs@) { unimplemented!() }
 pub uninterp spec fn is_class_token(s: Seq<char>) -> bool;
 #[verifier::external_body] pub fn vx_is_class_token(s: &String) -> (r: bool) ensures r == is_class_token(s@) { unimplemented!() }
+// verified in unit atom: r ==> the text is one escape sequence (F13); here only WHICH branch Display takes matters
+#[verifier::external_body] pub fn is_single_escape_sequence(s: &str) -> (r: bool) ensures r == single_escape(s@) { unimplemented!() }
 impl Grapheme {""")
     G = r'^impl Grapheme \{'
     b.assumed_fn('grapheme.rs', 'value', within=G, ensures=['r@ == joined(self.chars@)'], why='Vec<String>::join (std)')
